@@ -103,7 +103,7 @@ def generate(rng, tier):
             f['exc'] = rng.choice(['ValueError', 'ZeroDivisionError', 'RuntimeError', 'AssertionError', 'KeyError',
                                    'SimError', 'mod:%s.SimLocalError' % modname, 'LookupError'])
             f['msg'] = rng.choice(['other ' + p['pid'], '', 'other: colon ' + p['pid'], 'other\nmulti ' + p['pid'],
-                                   'xyz...' + p['pid']])
+                                   'xyz...' + p['pid'], 'other %s went wrong.' % p['pid'], 'other %s in file data.txt' % p['pid']])
             f['depth'] = rng.choice([0, 0, 2])
         plan.append(f)
     return {'profile': ID, 'world': world, 'ops': ops, 'plan': plan, 'env': {'listing_seed': rng.randint(0, 99)}}
